@@ -11,11 +11,13 @@ CHECKS = {}
 CHECKS["C15"] = {
     "runs": [
         R("./parser", {"fn": r"^ZZ_C15_P1_scan_n[1-4]$"}, {"fn": r"^ZZ_C15_P1_scan_n[1-6]$"}),
+        R("./parser", {"fn": r"^ZZ_C15_(P2_parse_n[12]|P4a_scan_translation_n[23]|P3_P4b_compose)$"},
+                      {"fn": r"^ZZ_C15_(P2_parse_n[123]|P4a_scan_translation_n[234]|P3_P4b_compose)$"}),
     ],
-    "expect_asserts": [r"C15\.P1\.invariant-preserved", r"C15\.P1\.position-in-input"],
+    "expect_asserts": [r"C15\.P1\.invariant-preserved", r"C15\.P1\.position-in-input", r"C15\.P2\.parse-no-panic", r"C15\.P2\.error-position-in-input", r"C15\.P4a\.line-shifted-by-prefix-lines", r"C15\.P3\.same-text-same-tree", r"C15\.P4b\.same-subtrees-with-shifted-positions"],
     "bounds": {
-        "quick": {"scan step: symbolic suffix runes": 4, "prefix shapes": 4, "unseen earlier lines": "symbolic 0..2^30"},
-        "thorough": {"scan step: symbolic suffix runes": 6, "prefix shapes": 4, "unseen earlier lines": "symbolic 0..2^30"},
+        "quick": {"scan step: symbolic suffix runes": 4, "prefix shapes": 4, "unseen earlier lines": "symbolic 0..2^30", "ParseSrc totality and error position": "all sources of <= 2 symbolic runes", "scanner translation lemma": "5 prefixes x 2..3 symbolic runes", "parser compositionality": "all ordered pairs of 31 snippets"},
+        "thorough": {"scan step: symbolic suffix runes": 6, "prefix shapes": 4, "unseen earlier lines": "symbolic 0..2^30", "ParseSrc totality": "<= 3 runes", "scanner translation lemma": "up to 4 runes"},
     },
     "stubs": ["unicode.IsLetter on symbolic runes: ASCII formula (runes assumed 0..0x7f)", "fmt.Errorf: native formatting, symbolic operands print as <symbolic>"],
     "assumptions": ["symbolic runes are ASCII (0..0x7f); non-ASCII runes only as concrete members", "go/ssa v0.29.0 SSA of /repo is faithful to the compiled code", "z3 5.1.0 answers are sound"],
@@ -182,12 +184,12 @@ CHECKS["C14"] = {
     "corpus": True,
     "assert_filter": r"C14\.",
     "runs": _C01_RUNS + [R("./vm", {"fn": r"^ZZ_C14_import_copies$"})],
-    "expect_asserts": [r"C14\.F2\.no-alias-to-shared-state/AddrExpr", r"C14\.F3\.other-importer-unaffected", r"C14\.F1\.tree-and-globals-read-only/CallExpr", r"C14\.F1\.tree-and-globals-read-only/LiteralExpr", r"C14\.F1\.tree-and-globals-read-only/StmtsStmt"],
+    "expect_asserts": [r"C14\.F4\.no-hidden-input/IfStmt", r"C14\.F2\.no-alias-to-shared-state/AddrExpr", r"C14\.F3\.other-importer-unaffected", r"C14\.F1\.tree-and-globals-read-only/CallExpr", r"C14\.F1\.tree-and-globals-read-only/LiteralExpr", r"C14\.F1\.tree-and-globals-read-only/StmtsStmt"],
     "bounds": {"F1": "every node kind with arbitrary children (the C01 step instances): the tree and every object that existed after package initialisation are frozen during RunContext"},
     "stubs": ["write barrier of the engine on Store / MapUpdate / delete / in-place append / reflect Set"],
     "assumptions": ["frame argument: no evaluation step writes the tree or process-wide state (F1) => runs on separate environments commute, so k sequential or concurrent runs of one tree give their solo results",
                     "run-time values referenced from literals (containers, pointers) are data, not syntax"],
-    "outside": ["goroutine interleavings under the race detector: replaced by the frame argument (not encoded)", "the determinism ledger (F4) is not part of this check"],
+    "outside": ["goroutine interleavings under the race detector: replaced by the frame argument (not encoded)", "F4 is the ledger of nondeterministic primitives reached (select with several ready cases, address-derived values); map iteration is excluded as the statement says"],
 }
 
 CHECKS["C04"] = {
